@@ -87,6 +87,25 @@ static void one_discover(size_t mtu, int count, int pos, int shape, int null_mac
     if (is_chgd != changed) vf_violation(changed ? "classify:changed-transaction-missed" : "classify:changed-transaction-spurious", "table %s: event %s, the 'changed transaction' variant is due exactly when the same mapper+generation is known under another sequence number", TBNAME[shape], evname(ev));
 }
 
+/* truncated Discover: the count field says `count`, but only `held` stations were received (the rest of the
+ * buffer is stale and may even contain our address): only the stations the frame holds count */
+static void one_truncated(size_t mtu, int count, int held, int pos) {
+    static uint8_t buf[VF_MAXMTU + 64];
+    build_discover(buf, mtu, count, pos);
+    table_shape(TB_EMPTY);
+    static int p[6]; p[0] = 2; p[1] = (int)mtu; p[2] = count; p[3] = held; p[4] = pos + 8; p[5] = 0;
+    e1_manual_path(&pseudo, p, 6);
+    int ev = derive_session_event_len(buf, 36 + 6 * (size_t)held, T, OWN);
+    evals++;
+    vf_outcome(vf_hash64(&ev, sizeof ev, 1000u + (uint64_t)(pos < held)));
+    if (A.verbose) printf("    Discover(count=%d, %d stations received, own address at position %d) -> %s\n", count, held, pos, evname(ev));
+    if (held == 0) return;                       /* nothing of the list was received: unconstrained */
+    int ack_class = (ev == sess_discover_acking || ev == sess_discover_acking_chgd_xid);
+    int noack_class = (ev == sess_discover_noack || ev == sess_discover_noack_chgd_xid);
+    if (pos >= 0 && pos < held && !ack_class) vf_violation("classify:truncated:listed-but-noack", "count field %d, %d stations received, own address at position %d (inside the received part): classified %s", count, held, pos, evname(ev));
+    if ((pos < 0 || pos >= held) && !noack_class) vf_violation("classify:truncated:not-received-but-acking", "count field %d, %d stations received, own address %s: classified %s", count, held, pos < 0 ? "absent" : "only in the stale bytes beyond the received length", evname(ev));
+}
+
 static void one_opcode(int opcode, int dst) {
     static uint8_t buf[1600]; memset(buf, 0, sizeof buf);
     const uint8_t *d = dst == 0 ? vf_station[ST_BC] : dst == 1 ? OWN : vf_station[ST_M1];
@@ -109,6 +128,7 @@ static void ps_apply(int ev) {
     staged[nst++] = ev;
     if (staged[0] == 0 && nst == 6) { one_discover((size_t)staged[1], staged[2], staged[3] - 8, staged[4], staged[5]); nst = 0; }
     if (staged[0] == 1 && nst == 3) { one_opcode(staged[1], staged[2]); nst = 0; }
+    if (staged[0] == 2 && nst == 6) { one_truncated((size_t)staged[1], staged[2], staged[3], staged[4] - 8); nst = 0; }
 }
 
 int main(int argc, char **argv) {
@@ -125,9 +145,14 @@ int main(int argc, char **argv) {
         one_discover(mtus[mi], count, -1, shape, 1);
         if (count) one_discover(mtus[mi], count, count / 2, shape, 1);
     }
+    for (int count = 1; count <= 240; count++) {
+        int helds[5] = {0, 1, count / 2, count - 1, count};
+        for (int hi = 0; hi < 5; hi++) { int h = helds[hi]; int poss[6] = {-1, 0, h - 1, h, count - 1, count / 3}; for (int pi = 0; pi < 6; pi++) if (poss[pi] >= -1 && poss[pi] < count) one_truncated(1500, count, h, poss[pi]); }
+    }
     for (int op = 0; op < 256; op++) for (int dst = 0; dst < 3; dst++) one_opcode(op, dst);
     vf_sample("Discover(count=240, own address at position 239, table: same mapper+generation, other seq) -> must be discover_acking_chgd_xid");
     vf_sample("Discover(count=5, own address only at byte offset 56 (where a 14-byte-stride reader looks), table empty) -> must be discover_noack");
+    vf_sample("truncated Discover: count 1..240 x received stations {0,1,count/2,count-1,count} x own address inside / beyond the received part (bounded entry point)");
     vf_sample("opcode 0x08 with real destination broadcast -> topo_reset; unicast -> reset; opcode 0x01 -> hello; all 253 others -> no event");
     R.evaluations = evals; R.exhaustive = 1; R.wall_s = vf_now_s() - t0;
     vf_write_results();
